@@ -493,3 +493,83 @@ func runUnwindTarget(p *core.Prog) *core.Result {
 	}
 	return res
 }
+
+// R-FINALLYENTER (C08 "exactly once"): a try frame carries the positions of its pending catch and
+// finally blocks. Entering the finally block consumes finallyPos (set to -1); from then on the
+// frame's catch clause must be out of the game as well, or an exception thrown *inside* the
+// finally block is caught by the statement's own catch and the finally block runs a second time
+// (`try { } catch (e) { } finally { throw 1 }` logged "caught 1" and ran finally twice).
+// Rule: every store that disarms tryFrame.finallyPos is accompanied by a store of a negative
+// constant to catchPos of the same frame in the same block region, or is control-dependent on a
+// test that catchPos is already negative.
+var FinallyEnter = &core.Rule{Name: "R-FINALLYENTER", Run: runFinallyEnter,
+	Doc: "every store disarming tryFrame.finallyPos comes with catchPos of the same frame disarmed: by a store in the same straight-line region or by a dominating test catchPos < 0"}
+
+func runFinallyEnter(p *core.Prog) *core.Result {
+	res := core.NewResult("R-FINALLYENTER", 3)
+	fFin, err := p.Field(core.GojaPath, "tryFrame", "finallyPos")
+	if err != nil {
+		return res.Fail(err)
+	}
+	fCatch, err := p.Field(core.GojaPath, "tryFrame", "catchPos")
+	if err != nil {
+		return res.Fail(err)
+	}
+	negConst := func(v ssa.Value) bool {
+		k, ok := core.IntConst(v)
+		return ok && k < 0
+	}
+	n := map[string]int{}
+	for _, f := range p.Funcs {
+		core.AllInstrs(f, func(in ssa.Instruction) {
+			st, ok := in.(*ssa.Store)
+			if !ok || core.FieldOf(st.Addr) != fFin || !negConst(st.Val) {
+				return
+			}
+			base := st.Addr.(*ssa.FieldAddr).X
+			k := core.FuncName(f) + ":finally entered with the catch disarmed"
+			n[k]++
+			key := k
+			if n[k] > 1 {
+				key = fmt.Sprintf("%s#%d", k, n[k])
+			}
+			pos := p.Pos(st.Pos())
+			// (a) a store of a negative constant to catchPos of the same frame in the same block
+			for _, x := range st.Block().Instrs {
+				if s2, ok := x.(*ssa.Store); ok && core.FieldOf(s2.Addr) == fCatch && negConst(s2.Val) {
+					if fa, ok := s2.Addr.(*ssa.FieldAddr); ok && fa.X == base {
+						res.OK(key, pos, "catchPos of the same frame is disarmed alongside")
+						return
+					}
+				}
+			}
+			// (b) dominated by a test that catchPos is already negative
+			for _, cp := range core.ControllingConds(st.Block()) {
+				bo, ok := cp.Cond.(*ssa.BinOp)
+				if !ok {
+					continue
+				}
+				ld, ok := bo.X.(*ssa.UnOp)
+				if !ok || ld.Op != token.MUL || core.FieldOf(ld.X) != fCatch {
+					continue
+				}
+				kc, ok := core.IntConst(bo.Y)
+				if !ok {
+					continue
+				}
+				neg := false
+				switch {
+				case bo.Op == token.GEQ && kc == 0 && !cp.Pol, bo.Op == token.LSS && kc == 0 && cp.Pol,
+					bo.Op == token.EQL && kc < 0 && cp.Pol, bo.Op == token.GTR && kc == -1 && !cp.Pol:
+					neg = true
+				}
+				if neg {
+					res.OK(key, pos, "only reached when catchPos is already negative")
+					return
+				}
+			}
+			res.Bad(key, pos, "the finally block is entered (finallyPos disarmed) while the frame's catchPos may still be armed: an exception thrown inside the finally block is caught by the statement's own catch clause and the finally block runs twice")
+		})
+	}
+	return res
+}
